@@ -62,7 +62,7 @@ _BOOM = re.compile(r"boom#(\d+)#")
 _CTX = re.compile(r"id=(\d+) beh=(\w+)")
 MODES = ("custom", "partial", "builtin")
 CUSTOM_TYPES = {"custom": NONTOXIC, "partial": ("FAILED_OPERATION", "ORPHANED_RESOURCE"), "builtin": ()}
-# A digester that re-enters the lysosome while the queue is at capacity recurses through _emergency_digest on the
+# A digester that re-enters the lysosome while the queue is at capacity recurses through the emergency digest on the
 # pinned tree (the oldest half is still queued while its digesters run). Re-entering digesters are outside the
 # property's quantifier ("digesters that raise"); they are explored where the capacity path is unreachable
 # (auto_digest_threshold <= max_queue_size). Flip this once the emergency path pops before it digests.
@@ -210,8 +210,8 @@ def wastes_in(obj):
 
 
 def install_locks_deep(obj):
-    """sched.install_locks on obj and on every private helper object / container in its state: locks are found by
-    type wherever they are kept. Returns the labels of the replaced locks."""
+    """What sched.install_locks does for the attributes of obj, for its whole instance state (private helper objects
+    and containers included): locks are found by type wherever they are kept. Returns the labels of the replaced locks."""
     out, seen = [], set()
     kinds = _KINDS
 
@@ -224,9 +224,6 @@ def install_locks_deep(obj):
             return
         seen.add(id(v))
         if k == OBJ:
-            if isinstance(getattr(v, "__dict__", None), dict):
-                for name in sched.install_locks(v):
-                    out.append(f"{label}.{name}")
             items = _fields(v)
         elif k == DICT:
             items = list(v.items())
@@ -237,7 +234,15 @@ def install_locks_deep(obj):
         for name, x in items:
             kx = kinds.get(type(x)) or _kind(x)
             if kx == LOCK:
-                if isinstance(x, _PLAIN_LOCKS) and k in (DICT, SEQ) and not isinstance(v, tuple):
+                if not isinstance(x, _PLAIN_LOCKS):
+                    continue  # already a CoopLock
+                if k == OBJ:
+                    new = coop(x, f"{label}.{name}")
+                    if name in (getattr(v, "__dict__", None) or ()):
+                        v.__dict__[name] = new
+                    else:
+                        object.__setattr__(v, name, new)  # slot
+                elif k == DICT or isinstance(v, (list, collections.deque)):
                     v[name] = coop(x, f"{label}[{name!r}]")
             elif kx >= SEQ:
                 walk(x, kx, f"{label}.{name}" if k == OBJ else f"{label}[{name!r}]")
@@ -851,7 +856,8 @@ class Model:
         st.queued = box.queued()  # nothing touches the lysosome between here and canon()
         qa = [ident(w)[0] for w in st.queued]
         sa = lys.get_statistics()
-        # bounded queue (the largest of the three public/anchored views of the queue length is judged)
+        # bounded queue: the largest of the three views of its length (generic state walk, get_statistics,
+        # get_queue_status) is judged
         sizes = {len(qa), sa["queue_size"], lys.get_queue_status()["size"]}
         if max(sizes) > cap:
             v.append((f"queue-over-capacity:{'ingest' if ingesting else kind}", f"{max(sizes)} items queued after "
@@ -1354,7 +1360,7 @@ def run(ctx):
              "counters only: leaving the queue outside autophagy must raise total_digested (at capacity: may)")
     if not REENTER_AT_CAPACITY:
         ctx.note("not explored: a digester / on_toxic that re-enters ingest() while the queue is at capacity (outside the "
-                 "property's quantifier; on the pinned tree _emergency_digest then recurses on the still-queued oldest half "
+                 "property's quantifier; on the pinned tree the emergency digest then recurses on the still-queued oldest half "
                  "until RecursionError: the same sensitive item reaches on_toxic hundreds of times). Re-entering digesters "
                  "are explored on the digest and auto-digest paths (auto_digest_threshold <= max_queue_size)")
     ctx.assumptions += [
@@ -1364,7 +1370,7 @@ def run(ctx):
         "calls and backward jumps, so a single `x += 1` line is atomic)",
         "Waste objects built inside the library are stamped with the virtual clock (module global Waste rebound)",
         "harness digesters (all four non-sensitive waste types, or two of them in registry 'partial') behave as fixed "
-        "per item at ingestion; sensitive items go through the library's own _digest_toxic and the harness on_toxic",
+        "per item at ingestion; sensitive items go through the library's own toxic digester and the harness on_toxic",
         "console output of silent=False runs is swallowed by a module-level print in lysosome/autophagy_daemon",
         "the role of a processed item (digest / auto-digest / emergency) is derived from the public call under judgement "
         "(kind; ingest at capacity or not; in schedules: whether the configuration can reach capacity)",
